@@ -80,6 +80,7 @@ def parseOp? (c : Cfg) (sets : List (List Nat)) (o : String) : Option Op :=
     | _, _ => none
   | ["pv", v] => (honest? v).map .pv
   | ["pc", v] => (honest? v).map .pc
+  | ["pp", v] => (honest? v).map .pp
   | ["fin", v] => (honest? v).map .fin
   | ["chg", b, ids] => match block? b, parseKeys? c ids with
     | some k, some ks => if sets.length < 8 then some (.chg k ks) else none
